@@ -1129,6 +1129,10 @@ func run(ctx *Ctx) *Result {
 			lo := leftovers(final)
 			_, out2, v2 := correspond("F1 second compare", c, final, c.spoc, final.print(true), c.Spoc)
 			f2 := lastF
+			if firstK2 == "1" {
+				// the bridge that is not proved: K2 run => second comparison in class ISO (measured)
+				res.Count(fmt.Sprintf("second-compare-of-a-K2-run:iso=%s:empty=%v", f2["iso"], strings.TrimSpace(out2) == ""))
+			}
 			// F-C01b, pinned: (1) every left-over is an object-group that the INITIAL device already had and that is identical to
 			// a group referenced in the final state; (2) the second script only removes exactly these groups; (3) the model of the
 			// unchanged code predicts it: the first run adopted a device group (`grp:found-on-device`), the second comparison is
@@ -1385,8 +1389,35 @@ func run(ctx *Ctx) *Result {
 								}
 							}
 							_ = lineAfter
+							// hypotheses of asa_unshared_group_edit_keeps_agreed_verdicts: the place binds that access list before and after,
+							// no line of that access list is touched in the run and no other group of the line is edited (the generator's member texts never overlap): then the theorem
+							// says this failure is impossible
+							aclTouched, otherEdited := false, false
+							var lineRefs []string
+							for _, l := range c.dev.ACLs[aclOfGroup] {
+								if contains(refsOf(l), mode) {
+									lineRefs = refsOf(l)
+								}
+							}
+							em := ""
+							for _, x := range fl {
+								switch {
+								case strings.HasPrefix(x, "object-group network "):
+									em = strings.Fields(x)[2]
+								case strings.HasPrefix(x, "network-object ") || strings.HasPrefix(x, "no network-object "):
+									if em != mode && contains(lineRefs, em) {
+										otherEdited = true
+									}
+								default:
+									em = ""
+									if m := aclCmdRE.FindStringSubmatch(x); m != nil && m[2] == aclOfGroup {
+										aclTouched = true
+									}
+								}
+							}
 							res.Fail(map[string]any{"pred": "unshared_group_members_changed_before_lines", "backend": "asa",
-								"model_predicts": mp && seenEdit, "followed_by": followed},
+								"model_predicts": mp && seenEdit, "followed_by": followed,
+								"theorem_hypotheses_hold": !aclTouched && !otherEdited && c.dev.Bind[key] == final.Bind[key] && c.dev.Bind[key] == aclOfGroup},
 								fmt.Sprintf("after command %d (%s, group %s) packet %v at %s gets verdict %d, before and after the run it is %d", k, cmd, mode, p, key, v, v0), c)
 							break c14g
 						}
